@@ -670,8 +670,8 @@ def main():
     run.assume("`taskset -c` masks steer std::thread::available_parallelism (worker count); .build/test_timings "
                "steers the dispatch order (confirmed per run on the single-worker schedules)")
     run.assume("requested bounds of get_range(min, max) with min > max are read as [max, min] (what the code does)")
-    nsuites = args.budget("suites", 4, 60)
-    nsched = args.budget("schedules", 8, 16)
+    nsuites = args.budget("suites", 4, 30)
+    nsched = args.budget("schedules", 8, 12)
     max_tests = args.budget("max_tests", 24, 40)
     cc_every = args.budget("cc_every", 2, 3)          # one cc schedule in every n-th suite (cc compiles are slow)
     scratch = run.scratch()
